@@ -99,7 +99,7 @@ func C16(p *load.Program, run *report.Run) {
 		}
 		for _, r := range bad {
 			var why []string
-			for _, v := range r.Results {
+			for _, v := range load.Results(r) {
 				if ta.T[v] {
 					why = ta.Why(v, 8)
 					break
@@ -152,8 +152,11 @@ func C15(p *load.Program, run *report.Run) {
 	}
 	var successes []*ssa.Return
 	for _, b := range f.Blocks {
+		if b == f.Recover {
+			continue // the block a recovered panic resumes at returns whatever the result cells hold
+		}
 		if r, ok := b.Instrs[len(b.Instrs)-1].(*ssa.Return); ok {
-			if c, ok := r.Results[len(r.Results)-1].(*ssa.Const); ok && c.Value == nil {
+			if c, ok := load.Results(r)[len(load.Results(r))-1].(*ssa.Const); ok && c.Value == nil {
 				successes = append(successes, r)
 			}
 		}
